@@ -60,6 +60,16 @@ pub fn boudot_witnesses(tag: &str, x: &Integer, a: &Integer, b: &Integer) -> Vec
     ]
 }
 
+/// in half of the proofs one hidden attribute takes a boundary value of its range: 0, 1 or 2^lm - 1
+fn boundary_hidden<C: Cs>(ctx: &Ctx, r: &mut impl rand::RngCore, msgs: &mut [zkryptium::utils::message::cl03_message::CL03Message], u: &[usize]) {
+    let sel = rand_range(r, 6);
+    if sel < 3 && !u.is_empty() {
+        let i = u[rand_range(r, u.len())];
+        msgs[i] = attribute::<C>(r, sel);
+        ctx.count(&format!("proofs_with_hidden_boundary_value_{}", ["0", "1", "max"][sel]), 1);
+    }
+}
+
 pub fn issuance_bundle<C: Cs>(ctx: &Ctx, st: &Setup<C>, r: &mut impl rand::RngCore, n: usize, u: &[usize]) -> Option<Bundle> {
     issuance_bundle_ext::<C>(ctx, st, r, n, u, None, false)
 }
@@ -77,6 +87,7 @@ pub fn issuance_bundle_ext<C: Cs>(
 ) -> Option<Bundle> {
     let bases = st.bases_n(n);
     let mut msgs = attributes::<C>(r, n, 0);
+    boundary_hidden::<C>(ctx, r, &mut msgs, u);
     if equal_hidden {
         for &i in u {
             msgs[i] = msgs[u[0]].clone();
@@ -128,7 +139,8 @@ pub fn issuance_bundle_ext<C: Cs>(
 pub fn spok_bundle<C: Cs>(ctx: &Ctx, st: &Setup<C>, r: &mut impl rand::RngCore, n: usize, u: &[usize]) -> Option<Bundle> {
     let bases = st.bases_n(n);
     let cpk = st.cpk_n(n);
-    let msgs = attributes::<C>(r, n, 0);
+    let mut msgs = attributes::<C>(r, n, 0);
+    boundary_hidden::<C>(ctx, r, &mut msgs, u);
     let sig = Signature::<CL03<C>>::sign_multiattr(st.pk(), st.sk(), &bases, &msgs);
     let label = format!("{}/spok/n{}/U={:?}", C::NAME, n, u);
     let p = ctx
